@@ -5,6 +5,7 @@ import (
 	"strings"
 
 	"verif/internal/eng"
+	"verif/internal/ref"
 )
 
 // StrCase: one string literal (raw source bytes) and the text it must evaluate to.
@@ -75,6 +76,17 @@ func judgeStr(c StrCase) *eng.Fail {
 	arr, ok := v.([]interface{})
 	if !ok || len(arr) != 2 || arr[0] != interface{}(want) || arr[1] != interface{}(want) {
 		return eng.F("C13/wrong-text", "[L, f(L)] with L=%q evaluates to %s, expected %q twice", src, show(v), want)
+	}
+	// next to the same characters written as a number, a name or a keyword: a literal is its text whatever
+	// was evaluated before it on the same runner
+	if _, verdict := ref.Parse([]byte("[" + want + "]")); verdict == ref.Accept && want != "" && !strings.ContainsAny(want, "'\"\\\n\r") {
+		v, f = eval("[" + want + ", " + string(src) + ", ($s = " + string(src) + "), $s, typeof " + string(src) + "]")
+		if f == nil {
+			arr, ok := v.([]interface{})
+			if !ok || len(arr) != 5 || arr[1] != interface{}(want) || arr[2] != interface{}(want) || arr[3] != interface{}(want) || arr[4] != interface{}("string") {
+				return eng.F("C13/wrong-text", "[%s, L, ($s = L), $s, typeof L] with L=%q evaluates to %s: after the same characters were evaluated as an expression, the literal is still the text %q", want, src, show(v), want)
+			}
+		}
 	}
 	v, f = eval(string(src) + " + 'z' + " + string(src))
 	if f != nil {
@@ -160,7 +172,7 @@ func runC13(w *eng.W) {
 	}
 	// texts that look like values of another kind must stay texts
 	for _, t := range []string{"2024-02-29T12:30:00Z", "2024-02-29T12:30:00+08:00", "2024-02-29T12:30:00.123456789Z", "2024-02-29", "12:30:00", "2024-02-29 12:30:00", "0001-01-01T00:00:00Z",
-		"123", "-1.5", "1e5", "0x1F", "NaN", "Infinity", "-Infinity", "1_000", "007", ".5", "true", "false", "null", "undefined", "this", "typeof x", "$a", "ctx",
+		"123", "-1.5", "1e5", "1.50", "1e+2", "5.", "1_0", "00", "0x1F", "NaN", "Infinity", "-Infinity", "1_000", "007", ".5", "true", "false", "null", "undefined", "this", "typeof x", "$a", "ctx",
 		"{\"a\":1}", "[1,2]", "()", "1+1", "a.b", "f(x)", "1h30m", "P1D", "550e8400-e29b-41d4-a716-446655440000", "http://a/b?c=d#e", "a@b.c", "aGVsbG8=", "#ff0000", "%d %s", "${x}", "{{x}}", "<b>", "&amp;", "C:\\dir", "/*x*/", "//x", "--x", "'; drop", "Asia/Shanghai", "UTC", "Local", "+08:00"} {
 		if !w.Take() {
 			continue
